@@ -116,9 +116,11 @@ def getattr_static(obj, attr, default=_sentinel):
         for entry in _static_getmro(type(klass)):
             if _shadowed_dict(type(entry)) is _sentinel:
                 try:
-                    return entry.__dict__[attr], False
+                    metaclass_result = entry.__dict__[attr]
                 except KeyError:
                     pass
+                else:
+                    return metaclass_result, _safe_hasattr(metaclass_result, '__get__')
     if default is not _sentinel:
         return default, False
     raise AttributeError(attr)
